@@ -72,6 +72,12 @@ static const Prog PROGS[] = {
   { "random",
     "k = 0;",
     "print typeof(random()) (random(10) < 10) (random() >= 0) k;" },
+  { "inherited",
+    "k = 0; base = 5; name = \"nm\"; tb = tab(2, 3); rr = tup(7, \"q\");",
+    "b1 = base + k; b2 = base + k; c1 = name; c2 = name + str(k); e1 = tb.at(0) + k; e2 = tb.at(0) + k; f1 = rr@2; f2 = rr@2 + \"!\"; print b1 b2 c1 c2 e1 e2 f1 f2 base name tb.at(0) rr@2;" },
+  { "matches",
+    "k = 0; n = 0;",
+    "pat = \"^[a-\" + chr(97 + k) + \"]+$\"; for i in 1 to 2 loop if \"abc\" matches pat then n = n + 1; end if; if \"ab\" matches \"^[ab]+$\" then n = n + 10; end if; end loop; print n pat;" },
   { "tuple-table",
     "k = 0; r = tup(1, \"a\"); tt = tab(2, tup(0, \"z\"));",
     "r.set@1(k); tt.put(0, r); forall e in tt loop e.set@2(str(k)); end loop; print r@1 tt.at(0)@1 tt.at(1)@2;" },
